@@ -1,7 +1,7 @@
 (* Regenerated obligations for C15 (the handler: the order of its checks and what each failure path does; the model Gw/Http.v was written from these skeletons). *)
 From Coq Require Import String.
 From Gen Require Import Skeletons.
-From GW Require Import Verified.
+From GW Require Import Verified VerifiedBodies.
 
 Lemma http_GraphQLHandler_skeleton : gen_http_GraphQLHandler = verified_http_GraphQLHandler.
 Proof. reflexivity. Qed.
@@ -10,4 +10,32 @@ Lemma http_setResultFunc_skeleton : gen_http_setResultFunc = verified_http_setRe
 Proof. reflexivity. Qed.
 
 Lemma http_executeRequest_skeleton : gen_http_executeRequest = verified_http_executeRequest.
+Proof. reflexivity. Qed.
+
+(* bodies with their conditions (VerifiedBodies.v) *)
+Lemma http_formatErrors_body : gen_http_formatErrors = verified_http_formatErrors.
+Proof. reflexivity. Qed.
+
+Lemma http_formatErrorsWithCode_body : gen_http_formatErrorsWithCode = verified_http_formatErrorsWithCode.
+Proof. reflexivity. Qed.
+
+Lemma http_GraphQLHandler_cond_body : gen_http_GraphQLHandler_cond = verified_http_GraphQLHandler_cond.
+Proof. reflexivity. Qed.
+
+Lemma http_executeRequest_cond_body : gen_http_executeRequest_cond = verified_http_executeRequest_cond.
+Proof. reflexivity. Qed.
+
+Lemma http_parseRequest_body : gen_http_parseRequest = verified_http_parseRequest.
+Proof. reflexivity. Qed.
+
+Lemma http_parseGetRequest_body : gen_http_parseGetRequest = verified_http_parseGetRequest.
+Proof. reflexivity. Qed.
+
+Lemma http_parsePostRequest_body : gen_http_parsePostRequest = verified_http_parsePostRequest.
+Proof. reflexivity. Qed.
+
+Lemma http_parseOperations_body : gen_http_parseOperations = verified_http_parseOperations.
+Proof. reflexivity. Qed.
+
+Lemma http_emitResponse_body : gen_http_emitResponse = verified_http_emitResponse.
 Proof. reflexivity. Qed.
